@@ -129,8 +129,11 @@ def choose_wrap(chk, prog):
     okm = got.get("array") == ch
     chk.require(okm, "CHOOSE-WRAP", "tree_choose/array", "jnp.choose(idx, vs, mode='wrap')", derived=show(got.get("array")), expected=show(ch), where=where)
     gi = got.get("int")
-    oki = is_call(gi, "asarray") and is_t(gi[2][0], "index") and gi[2][0][1] == VS and gi[2][0][2] == ("bin", "%", P("idx"), ("call", G("len"), (VS,), ())) and dict(gi[3]).get("dtype") == ("attr", ch, "dtype")
-    chk.require(oki, "CHOOSE-WRAP", "tree_choose/int", "the int shortcut applies the same normalisation (idx % len) and casts to the choose dtype", derived=show(gi), expected="jnp.asarray(vs[idx % len(vs)], dtype=result.dtype)", where=where)
+    # the concrete-int shortcut must give what the traced arm gives: same element (idx % len), same dtype AND same shape - jnp.choose broadcasts the choices
+    # against each other, so a Switch whose branches return a scalar and a (3,) array has retval shape () eagerly and (3,) under jit unless the shortcut broadcasts
+    cast = gi[2][0] if is_call(gi, "broadcast_to") and len(gi[2]) == 2 and gi[2][1] == ("attr", ch, "shape") else None
+    oki = cast is not None and is_call(cast, "asarray") and is_t(cast[2][0], "index") and cast[2][0][1] == VS and cast[2][0][2] == ("bin", "%", P("idx"), ("call", G("len"), (VS,), ())) and dict(cast[3]).get("dtype") == ("attr", ch, "dtype")
+    chk.require(oki, "CHOOSE-WRAP", "tree_choose/int", "the int shortcut applies the same normalisation (idx % len), casts to the choose dtype and broadcasts to the choose shape", derived=show(gi), expected="jnp.broadcast_to(jnp.asarray(vs[idx % len(vs)], dtype=result.dtype), result.shape)", where=where)
 
 
 def mswitch(chk, prog):
